@@ -446,7 +446,7 @@ func (dn Dnum) ToInt64() (int64, bool) {
 		if dn.exp == digitsMax+2 {
 			return int64(dn.sign) * (int64(dn.coef) * 100), true
 		}
-		if dn.exp == digitsMax+3 && dn.coef < math.MaxInt64/1000 {
+		if dn.exp == digitsMax+3 && dn.coef <= math.MaxInt64/1000 {
 			return int64(dn.sign) * (int64(dn.coef) * 1000), true
 		}
 	}
